@@ -294,13 +294,13 @@ class Session:
         a = act["a"]
         self.stub.rx = []
         self.fired = []
-        ret = {"t": "none"}
+        ret = {"t": "none", "v": []}
         try:
             ret = self._do(a, act)
         except R.Hung:
-            ret = {"t": "exc", "v": "Hung"}
+            ret = {"t": "exc:Hung", "v": []}
         except BaseException as e:  # the outcome class is the observation
-            ret = {"t": "exc", "v": type(e).__name__}
+            ret = {"t": "exc:" + type(e).__name__, "v": []}
         ev = dict(act)
         ev["tx"] = list(self.stub.rx)
         ev["ret"] = ret
@@ -325,7 +325,7 @@ class Session:
             return _none(d.clear_breakpoint(FILENAME, row_of(act["x"])))
         if a in ("rmem", "rmem0"):
             r = d.read_mem(act.get("x", 0), act["n"])
-            return {"t": "bytes", "v": list(r)} if isinstance(r, (bytes, bytearray)) else {"t": "odd", "v": repr(r)[:40]}
+            return {"t": "bytes", "v": list(r)} if isinstance(r, (bytes, bytearray)) else {"t": "odd:" + repr(r)[:40], "v": []}
         if a == "wmem":
             return _none(d.write_mem(act["x"], bytes(act["d"])))
         if a == "rregs":
@@ -334,34 +334,46 @@ class Session:
                 return {"t": "regs", "v": []}
             if isinstance(r, dict) and set(r) == set(self.regs) and all(isinstance(v, int) and 0 <= v < 2 ** 31 for v in r.values()):
                 return {"t": "regs", "v": [r[x] for x in self.regs]}
-            return {"t": "odd", "v": repr(r)[:60]}
+            return {"t": "odd:" + repr(r)[:60], "v": []}
         if a == "wregs":
-            d.register_values = dict(zip(self.regs, act["v"]))
+            d.register_values = dict(zip(self.regs, act["w"]))
             return _none(d.set_register_values())
         if a == "getpc":
             r = d.get_pc()
-            return {"t": "int", "v": r} if isinstance(r, int) and not isinstance(r, bool) and 0 <= r < 2 ** 31 else {"t": "odd", "v": repr(r)[:40]}
+            return {"t": "int", "v": [r]} if isinstance(r, int) and not isinstance(r, bool) and 0 <= r < 2 ** 31 else {"t": "odd:" + repr(r)[:40], "v": []}
         if a == "setpc":
             return _none(self.drv.set_pc(act["v"]))
         if a == "tbreak":
             self.stub.hit_break(act["x"], act["form"])
-            return {"t": "none"}
+            return {"t": "none", "v": []}
         if a == "tstep":
             self.stub.step_done(act["form"])
-            return {"t": "none"}
+            return {"t": "none", "v": []}
         if a == "tintr":
             self.stub.flush_intr()
-            return {"t": "none"}
+            return {"t": "none", "v": []}
         if a == "stopthr":
             if self.thr.where[0] != "get":
-                return {"t": "exc", "v": "StopThreadDead"}
+                return {"t": "exc:StopThreadDead", "v": []}
             if not self.stopq.items:
-                return {"t": "exc", "v": "StopQueueEmpty"}
+                return {"t": "exc:StopQueueEmpty", "v": []}
             where = self.thr.resume("go")
             if where[0] == "end":
-                return {"t": "exc", "v": "StopThread:%s" % (where[1][1],)}
-            return {"t": "none"}
+                return {"t": "exc:StopThread:%s" % (where[1][1],), "v": []}
+            return {"t": "none", "v": []}
         raise ValueError("unknown action %r" % (a,))
+
+    def possible(self, act):
+        a = act["a"]
+        if a == "tintr":
+            return self.stub.intr > 0
+        if a == "stopthr":
+            return bool(self.stopq.items)
+        if a == "tbreak":
+            return self.stub.st == "running" and act["x"] in self.stub.bps
+        if a == "tstep":
+            return self.stub.st == "stepping"
+        return True
 
     def view(self):
         try:
@@ -408,15 +420,19 @@ def _int(v):
 
 
 def _none(r):
-    return {"t": "none"} if r is None else {"t": "odd", "v": repr(r)[:40]}
+    return {"t": "none", "v": []} if r is None else {"t": "odd:" + repr(r)[:40], "v": []}
 
 
-def run_session(kind, acts, consts):
-    """Replay a list of actions into fresh real objects; returns the recorded events."""
+def run_session(kind, acts, consts, adaptive=False):
+    """Replay a list of actions into fresh real objects; returns the recorded events.
+    adaptive: a hand-written script's target reactions / stop-thread steps are dropped when the real
+    objects offer no occasion for them (choice of the input, never of an expected result)."""
     s = Session(kind, **consts)
     out = []
     try:
         for act in acts:
+            if adaptive and kind == "gdb" and not s.possible(act):
+                continue
             out.append(s.step(act))
     finally:
         s.close()
